@@ -227,6 +227,18 @@ func strs(a []string) []string {
 	return a
 }
 
+// sepVariant: words are separated by any white space the shell knows; checkLine joins them with a blank,
+// checkLineSep with something else (a line feed, a tab, CR LF, several blanks).
+var lineSep = " "
+
+func checkLineSeps(c *enumx.Ctx, gs []group) {
+	for _, sep := range []string{"\n", "\t", "\r\n", "  ", " \n ", "\n\n"} {
+		lineSep = sep
+		checkLine(c, gs)
+	}
+	lineSep = " "
+}
+
 func checkLine(c *enumx.Ctx, gs []group) {
 	var toks []string
 	for _, g := range gs {
@@ -234,7 +246,7 @@ func checkLine(c *enumx.Ctx, gs []group) {
 			toks = append(toks, shq(t))
 		}
 	}
-	line := strings.Join(toks, " ")
+	line := strings.Join(toks, lineSep)
 	c.Begin(func() string { return line })
 	c.Try("C14", func() {
 		r, err := flags.Parse(line)
@@ -490,6 +502,31 @@ func c14FValues(c *enumx.Ctx) {
 				gs := append(append(append([]group{}, l[:pos]...), group{Arg: w}), l[pos:]...)
 				checkLine(c, gs)
 			}
+		}
+	}
+	// values that are themselves quoted / escaped literals in some notation (Go, JSON, C, shell, URL, HTML): the
+	// value is the text as written, nothing is unquoted or unescaped
+	for _, v := range []string{`"abc"`, `"a b"`, `"a\tb"`, `"\x41"`, "`raw`", `'c'`, `'ab'`, `"`, `""`, `"a`, `a"`, `\"a\"`, `a\tb`, `a\nb`, `\x41`, `\101`, `\u0041`, `%41`, `%2Fetc`, `&amp;`, `&#65;`, `$HOME`, `${x}`, `$(id)`, "~root", `a\\b`, `[a]`, `{a,b}`, `a*`, `0x41`, `QUJD`, `=?utf-8?q?a?=`} {
+		if !c.Mine() {
+			continue
+		}
+		checkLine(c, []group{{Flag: "-a", Arg: "always,exit"}, {Flag: "-F", Arg: "exe=" + v}})
+		checkLine(c, []group{{Flag: "-a", Arg: "always,exit"}, {Flag: "-F", Arg: "key=" + v}, {Flag: "-k", Arg: v}})
+		checkLine(c, []group{{Flag: "-w", Arg: "/tmp/" + v}, {Flag: "-p", Arg: "wa"}, {Flag: "-k", Arg: v}})
+		checkLine(c, []group{{Flag: "-a", Arg: "always,exit"}, {Flag: "-C", Arg: "uid!=" + v}})
+		checkLine(c, []group{{Flag: "-a", Arg: "always,exit"}, {Flag: "-S", Arg: v}})
+	}
+	// the same lines with other separators between the words
+	for _, l := range lines {
+		for pos := 0; pos <= len(l); pos++ {
+			if !c.Mine() {
+				continue
+			}
+			checkLineSeps(c, l)
+			gs := append(append(append([]group{}, l[:pos]...), group{Arg: "stray"}), l[pos:]...)
+			checkLineSeps(c, gs)
+			gs2 := append(append(append([]group{}, l[:pos]...), group{Flag: "-D", Bare: true}), l[pos:]...)
+			checkLineSeps(c, gs2)
 		}
 	}
 	c.Sample("-a always,exit -F key=team=sec,env=prod => ONE filter key = \"team=sec,env=prod\"")
